@@ -3144,14 +3144,14 @@ def resolve_immediates(items, constants, labels):
 
         # resolve the immediate field
         env = ChainMap(constants, labels)
-        imm = item.imm.eval(position, env, item.line)
 
-        # account for AUIPC "PC based on previous inst" nuance
+        # account for AUIPC "PC based on previous inst" nuance: the jalr of an
+        # auipc+jalr pair is relative to the auipc (4 bytes back), so that its
+        # %lo is the counterpart of the %hi evaluated there
         if hasattr(item, 'is_auipc_jump') and item.is_auipc_jump:
-            if isinstance(item, CompressedInstruction):
-                imm += 2
-            else:
-                imm += 4
+            imm = item.imm.eval(position - 4, env, item.line)
+        else:
+            imm = item.imm.eval(position, env, item.line)
 
         d['imm'] = imm
 
